@@ -79,4 +79,13 @@ def stepI (a b : Int) (k : Nat) : List Int := (List.range (((b - a).toNat + k - 
 def downN (a b : Nat) : List Nat := (List.range (a + 1 - b)).map (fun k => a - k)
 def downI (a b : Int) : List Int := (List.range (a + 1 - b).toNat).map (fun k => a - Int.ofNat k)
 
+/-- `binary.LittleEndian.AppendUintN(b, v)` appends `leN v`, `binary.BigEndian.AppendUintN(b, v)` appends `beN v`: the
+N/8 bytes of `v` (a `uintN`, below `2^N`), least / most significant first -/
+def le16 (v : Nat) : List Nat := [v % 256, v / 256 % 256]
+def be16 (v : Nat) : List Nat := [v / 256 % 256, v % 256]
+def le32 (v : Nat) : List Nat := [v % 256, v / 256 % 256, v / 65536 % 256, v / 16777216 % 256]
+def be32 (v : Nat) : List Nat := [v / 16777216 % 256, v / 65536 % 256, v / 256 % 256, v % 256]
+def le64 (v : Nat) : List Nat := le32 (v % 4294967296) ++ le32 (v / 4294967296 % 4294967296)
+def be64 (v : Nat) : List Nat := be32 (v / 4294967296 % 4294967296) ++ be32 (v % 4294967296)
+
 end Go
